@@ -1,5 +1,133 @@
+/-
+  C11 — list/string indexing, slicing and concatenation obey the sequence laws.
+  The specifications are stated on the model's evaluator one step above its sub-evaluations: given what the
+  container, index and bound expressions evaluate to, the result is the `List` operation named in the theorem.
+-/
 import SeedModel.Eval
 namespace Seed.C11
+open Seed Gen
+
+/-! ### reading -/
+
+/-- `xs[i]` on a list: defined exactly for `i < len` (after the non-negativity check of `evalToIndex`), and then the i-th element -/
+theorem index_list_spec (n : Nat) (σ σ1 σ2 : State) (sc : List Addr) (ex locat : Expr) (loc : Loc) (a : Addr) (s : Option Val)
+    (i : Nat) (items : List SVal)
+    (h1 : evalExpr n σ sc ex = .ok ⟨.list a, s⟩ σ1) (h2 : evalToIndex n σ1 sc locat = .ok i σ2) (h3 : σ2.getList a = some items) :
+    evalExpr (n + 1) σ sc (.mk (.Index ex locat) loc) =
+      match items[i]? with
+      | some v => .ok v σ2
+      | none => errAt loc (Leaf.OutOfListBounds i) σ2 := by
+  conv => lhs; unfold evalExpr
+  simp only [h1, h2, h3, Res.bind]
+  cases items[i]? <;> rfl
+
+/-- `s[i]` on a string: the i-th byte as a one-byte string, defined exactly for `i < len` -/
+theorem index_str_spec (n : Nat) (σ σ1 σ2 : State) (sc : List Addr) (ex locat : Expr) (loc : Loc) (bs : Bytes) (s : Option Val) (i : Nat)
+    (h1 : evalExpr n σ sc ex = .ok ⟨.str bs, s⟩ σ1) (h2 : evalToIndex n σ1 sc locat = .ok i σ2) :
+    evalExpr (n + 1) σ sc (.mk (.Index ex locat) loc) =
+      match bs[i]? with
+      | some b => .ok (SVal.plain (.str [b])) σ2
+      | none => errAt loc (Leaf.OutOfStringBounds i) σ2 := by
+  conv => lhs; unfold evalExpr
+  simp only [h1, h2, Res.bind]
+  cases bs[i]? <;> rfl
+
+/-- a negative index is a reported error, never an element -/
+theorem negative_index_err (n : Nat) (σ σ1 : State) (sc : List Addr) (e : Expr) (i : Int) (hi : i < 0)
+    (h : evalToInt n σ sc c!"index" e = .ok i σ1) :
+    evalToIndex (n + 1) σ sc e = errAt e.loc (Leaf.NegativeIndex i) σ1 := by
+  conv => lhs; unfold evalToIndex
+  simp only [h, Res.bind, hi, if_true]
+
+/-- a non-integer index is a reported type error -/
+theorem non_int_index_err (n : Nat) (σ σ1 : State) (sc : List Addr) (e : Expr) (v : SVal) (hv : ∀ k, v.v ≠ .int k)
+    (h : evalExpr n σ sc e = .ok v σ1) :
+    evalToInt (n + 1) σ sc c!"index" e = errAt e.loc (Leaf.IncorrectType c!"index" c!"int" v.v.kind) σ1 := by
+  conv => lhs; unfold evalToInt
+  simp only [h, Res.bind]
+
+/-- `s[a:b]` on a string, omitted bounds meaning 0 and the length: defined exactly for `a ≤ b ≤ len`, and then the bytes
+    `(s.drop a).take (b - a)` -/
+theorem range_str_spec (n : Nat) (σ σ1 σ2 σ3 : State) (sc : List Addr) (ex : Expr) (start stop : Option Expr) (loc : Loc)
+    (a b : Option Nat) (bs : Bytes) (s : Option Val)
+    (h1 : evalOptIndex n σ sc start = .ok a σ1) (h2 : evalOptIndex n σ1 sc stop = .ok b σ2)
+    (h3 : evalExpr n σ2 sc ex = .ok ⟨.str bs, s⟩ σ3) :
+    evalExpr (n + 1) σ sc (.mk (.RangeIndex ex start stop) loc) =
+      if a.getD 0 ≤ b.getD bs.length ∧ b.getD bs.length ≤ bs.length
+      then .ok (SVal.plain (.str ((bs.drop (a.getD 0)).take (b.getD bs.length - a.getD 0)))) σ3
+      else errAt loc (Leaf.RangeOutOfStringBounds (a.getD 0) (b.getD bs.length)) σ3 := by
+  conv => lhs; unfold evalExpr
+  simp only [h1, h2, h3, Res.bind, Bool.and_eq_true, decide_eq_true_eq]
+
+/-- `xs[a:b]` on a list: a *fresh* list cell holding `(xs.drop a).take (b - a)`; defined exactly for `a ≤ b ≤ len` -/
+theorem range_list_spec (n : Nat) (σ σ1 σ2 σ3 : State) (sc : List Addr) (ex : Expr) (start stop : Option Expr) (loc : Loc)
+    (a b : Option Nat) (addr : Addr) (items : List SVal) (s : Option Val)
+    (h1 : evalOptIndex n σ sc start = .ok a σ1) (h2 : evalOptIndex n σ1 sc stop = .ok b σ2)
+    (h3 : evalExpr n σ2 sc ex = .ok ⟨.list addr, s⟩ σ3) (h4 : σ3.getList addr = some items) :
+    evalExpr (n + 1) σ sc (.mk (.RangeIndex ex start stop) loc) =
+      if a.getD 0 ≤ b.getD items.length ∧ b.getD items.length ≤ items.length
+      then .ok (SVal.plain (.list σ3.heap.size))
+            (σ3.alloc (.list ((items.drop (a.getD 0)).take (b.getD items.length - a.getD 0)))).2
+      else errAt loc (Leaf.RangeOutOfListBounds (a.getD 0) (b.getD items.length)) σ3 := by
+  conv => lhs; unfold evalExpr
+  simp only [h1, h2, h3, h4, Res.bind, Bool.and_eq_true, decide_eq_true_eq]
+  split <;> rfl
+
+/-! ### the `take`/`drop` algebra behind the laws -/
+
+/-- length of a slice -/
+theorem slice_length {α} (xs : List α) (a b : Nat) (hab : a ≤ b) (hb : b ≤ xs.length) :
+    ((xs.drop a).take (b - a)).length = b - a := by
+  simp only [List.length_take, List.length_drop]; omega
+
+/-- k-th element of a slice is the (a+k)-th element -/
+theorem slice_get {α} (xs : List α) (a b k : Nat) (hk : k < b - a) : ((xs.drop a).take (b - a))[k]? = xs[a + k]? := by
+  rw [List.getElem?_take_of_lt hk, List.getElem?_drop]
+
+/-- `s[:k] + s[k:] == s` -/
+theorem split_join {α} (xs : List α) (k : Nat) :
+    (xs.drop 0).take (k - 0) ++ (xs.drop k).take (xs.length - k) = xs := by
+  have h : (xs.drop k).take (xs.length - k) = xs.drop k := List.take_of_length_le (by simp)
+  rw [h, List.drop_zero, Nat.sub_zero]
+  exact List.take_append_drop k xs
+
+/-- `(s+t)[len(s)+i] == t[i]` and `(s+t)[i] == s[i]` for `i < len(s)` -/
+theorem concat_right {α} (xs ys : List α) (i : Nat) : (xs ++ ys)[xs.length + i]? = ys[i]? := by
+  rw [List.getElem?_append_right (by omega)]; congr 1; omega
+theorem concat_left {α} (xs ys : List α) (i : Nat) (h : i < xs.length) : (xs ++ ys)[i]? = xs[i]? :=
+  List.getElem?_append_left h
+
+/-- `+` on two lists is `++` of their items in a fresh cell; on strings it is byte append -/
+theorem concat_lists (n : Nat) (σ : State) (loc : Loc) (x y : Addr) (xs ys : List SVal)
+    (hx : σ.getList x = some xs) (hy : σ.getList y = some ys) :
+    applyBinOp n σ .Sum loc (.list x) (.list y) = .ok (.list σ.heap.size) (σ.alloc (.list (xs ++ ys))).2 := by
+  simp [applyBinOp, hx, hy, State.alloc]
+theorem concat_strs (n : Nat) (σ : State) (loc : Loc) (x y : Bytes) :
+    applyBinOp n σ .Sum loc (.str x) (.str y) = .ok (.str (x ++ y)) σ := by
+  simp [applyBinOp]
+
+/-! ### updating -/
+
+/-- `listSet` changes position `i` only and keeps the length -/
+theorem listSet_length {α} (xs : List α) (i : Nat) (v : α) : (listSet xs i v).length = xs.length := by
+  induction xs generalizing i with
+  | nil => rfl
+  | cons x r ih => cases i <;> simp [listSet, ih]
+
+theorem listSet_get {α} (xs : List α) (i j : Nat) (v : α) (hi : i < xs.length) :
+    (listSet xs i v)[j]? = if j = i then some v else xs[j]? := by
+  induction xs generalizing i j with
+  | nil => simp at hi
+  | cons x r ih =>
+    cases i with
+    | zero => cases j <;> simp [listSet]
+    | succ i =>
+      cases j with
+      | zero => simp [listSet]
+      | succ j =>
+        simp only [listSet, List.getElem?_cons_succ, List.length_cons] at hi ⊢
+        rw [ih i j (by omega)]
+        simp
 
 /-- writing `vals` at `start` keeps the length when the range fits -/
 theorem listSplice_length {α} (xs vals : List α) (start : Nat) (h : start + vals.length ≤ xs.length) :
@@ -8,7 +136,50 @@ theorem listSplice_length {α} (xs vals : List α) (start : Nat) (h : start + va
   simp only [List.length_append, List.length_take, List.length_drop]
   omega
 
-/-- `xs.take k ++ xs.drop k = xs`: the law behind `s[:k] + s[k:] == s` -/
-theorem split_join {α} (xs : List α) (k : Nat) : xs.take k ++ xs.drop k = xs := List.take_append_drop k xs
+/-- after `xs[a:b] = ys` (with `len ys = b - a`, `a + len ys ≤ len xs`): positions `a..b` hold `ys`, every other position is
+    unchanged -/
+theorem listSplice_get {α} (xs vals : List α) (start j : Nat) (h : start + vals.length ≤ xs.length) :
+    (listSplice xs start vals)[j]? =
+      if j < start then xs[j]? else if j < start + vals.length then vals[j - start]? else xs[j]? := by
+  unfold listSplice
+  by_cases h1 : j < start
+  · simp only [h1, if_true]
+    rw [List.append_assoc, List.getElem?_append_left (by simp; omega), List.getElem?_take_of_lt h1]
+  · simp only [h1, if_false]
+    have hlen : (xs.take start).length = start := by simp; omega
+    rw [List.append_assoc, List.getElem?_append_right (by omega), hlen]
+    by_cases h2 : j < start + vals.length
+    · simp only [h2, if_true]
+      rw [List.getElem?_append_left (by omega)]
+    · simp only [h2, if_false]
+      rw [List.getElem?_append_right (by omega), List.getElem?_drop]
+      congr 1; omega
+
+/-- `xs[a:b] = ys` (`bindRangeIndex`): with omitted bounds meaning 0 and **the length of `xs`**, it succeeds exactly when
+    `a < b ≤ len xs` and `len ys = b - a`, and then stores `xs.take a ++ ys ++ xs.drop b` in the same cell; otherwise it
+    is the specific reported error -/
+theorem range_assign_spec (n : Nat) (σ σ1 σ2 : State) (sc : List Addr) (addr : Addr) (start stop : Option Expr) (loc : Loc)
+    (rhs : List SVal) (names : List (List Char)) (s e : Option Nat) (items : List SVal)
+    (h1 : evalOptIndex n σ sc start = .ok s σ1) (h2 : evalOptIndex n σ1 sc stop = .ok e σ2) (h3 : σ2.getList addr = some items) :
+    bindRangeIndex (n + 1) σ sc addr start stop loc rhs names =
+      let lo := s.getD 0
+      let hi := e.getD items.length
+      if lo > items.length then errAt loc (Leaf.RangeStartOutOfListBounds lo items.length) σ2
+      else if lo ≥ hi then errAt loc (Leaf.RangeStartNotBeforeEnd lo hi) σ2
+      else if hi > items.length then errAt loc (Leaf.RangeEndOutOfListBounds hi items.length) σ2
+      else if hi - lo ≠ rhs.length then errAt loc (Leaf.RangeIndexItemMismatch (hi - lo) rhs.length) σ2
+      else .ok names (σ2.set addr (.list (listSplice items lo rhs))) := by
+  conv => lhs; unfold bindRangeIndex
+  simp only [h1, h2, h3, Res.bind]
+
+/-- in the success case the stored list is `xs.take a ++ ys ++ xs.drop b` -/
+theorem splice_is_take_ys_drop {α} (xs ys : List α) (a b : Nat) (hlen : b - a = ys.length) (hab : a < b) :
+    listSplice xs a ys = xs.take a ++ ys ++ xs.drop b := by
+  unfold listSplice
+  congr 2; omega
+
+/-- non-vacuity: a concrete range assignment on a 5-element list -/
+example : listSplice [1, 2, 3, 4, 5] 2 [7, 8, 9] = [1, 2, 7, 8, 9] := by decide
+example : listSplice [1, 2, 3, 4, 5] 1 [0] = [1, 0, 3, 4, 5] := by decide
 
 end Seed.C11
